@@ -11,7 +11,7 @@ LEVEL_TEXT = (
     'policy is accounted before it is written (on every path of RandomPolicy::set the usage is raised by exactly '
     'Record::len() of the record — the same affine measure the removing paths subtract — and the sweep has run before '
     'the inner set, so it cannot pick the new record); R2 sweep shape (the function holding the eviction loop is '
-    'identified structurally): the loop is entered on usage > limit, exits when the store is empty, draws its victim '
+    'identified structurally): the loop is entered on usage > limit, exits when the store is empty (and the inner store\'s len()/is_empty() it asks is the record map\'s), draws its victim '
     'index only after the empty-store exit (gen_range(0..max) with max != 0), removes through the inner store and '
     'subtracts the size of every record the removal handed back; R3 never under-counting: the only content-adding '
     'inner call of the policy is set, always preceded by the addition; every subtraction is the size of a record '
@@ -187,6 +187,19 @@ def r2(ctx):
             rep.check(oks, "sweep:subtracts-removed-size", "usage -= len(removed record)", "the sweep subtracts %s for a removed record, not its size" % short(sb_.args[1], 60), b.loc())
     rep.check(n_removed_subs > 0, "sweep:subtracts-removed-size", "the size of every evicted record is subtracted", "the sweep never subtracts the size of the records it evicts: the usage stays above the limit and everything is evicted", b.loc())
     rep.check(n_under > 0 and n_empty > 0 and n_sweep > 0, "sweep:cases", "paths: under limit / empty store / eviction", "the sweep lacks one of the cases under-limit/empty-store/eviction (%d/%d/%d)" % (n_under, n_empty, n_sweep), b.loc())
+    # the emptiness the sweep consults is the map's: the inner store's len() / is_empty() answer for the map that set() fills
+    # (a len() stuck at 0 turns every over-limit store into 'reset the usage and keep everything': nothing is ever evicted)
+    used = set()
+    for p in paths:
+        for e in p.events:
+            if e.kind == "call" and e.name in (CACHE + "::len", CACHE + "::is_empty"):
+                used.add(e.name.split("::")[-1])
+    for nm in sorted(used):
+        mb = f.one(ms(nm))
+        rep.analysed(mb)
+        rets = [tform(p_.ret) for p_ in store_interp(f).run(mb, [P("self")]) if not p_.cut]
+        okl = bool(rets) and all(r_ == ("mapq", nm, F(P("self"), R.ms_map), 0) for r_ in rets)
+        rep.check(okl, "store:%s-is-the-maps" % nm, "MemoryStore::%s answers for the map the records are stored in" % nm, "MemoryStore::%s returns %s, not the %s of the map the records are stored in: the sweep's empty-store exit is taken with records present (usage reset, nothing evicted) or missed" % (nm, sorted(set(short(r_, 50) for r_ in rets)), nm), mb.loc())
     # it is a loop
     rep.check(bool(b.has_cycle()), "sweep:is-loop", "eviction repeats until usage <= limit", "the eviction code contains no loop: one eviction per store cannot restore the limit", b.loc())
     return rep
